@@ -1,7 +1,7 @@
 (* Props/C14.v — C14: only sshuttle's own marked lines in the hosts file ever
    change.  Statements only; proofs are in Proofs/HostsFile_lemmas.v. *)
 From Coq Require Import List NArith Ascii Bool Permutation Sorted String.
-From SV Require Import Lib.Bytes Gen.Consts Model.HostsFile Proofs.HostsFile_lemmas.
+From SV Require Import Lib.Bytes Gen.Consts Model.HostsFile Proofs.HostsFile_lemmas Proofs.HostsFile_hist_lemmas.
 Import ListNotations.
 Local Open Scope N_scope.
 
@@ -128,6 +128,52 @@ Proof.
 Qed.
 Print Assumptions c14_history_bookkeeping.
 
+(* (3b) Update histories of ONE helper: "one marked line per discovered host", whatever the HOST lines
+       repeat.  hm_after upd is the map firewall.main keeps over the HOST lines upd = [(name, ip); ...] in
+       arrival order (hostmap[name] = ip for each, firewall.py:383-384).  For EVERY update history:
+       it answers each name with the address of the LAST update of that name (a host that moved is listed
+       at its new address, never at an older one), holds each updated name exactly once, and no other name. *)
+Theorem c14_map_last_address : forall upd,
+  (forall name, hm_get name (hm_after upd) = last_addr name upd) /\
+  NoDup (List.map fst (hm_after upd)) /\
+  (forall name, In name (List.map fst (hm_after upd)) <-> In name (List.map fst upd)).
+Proof. exact hm_after_last. Qed.
+Print Assumptions c14_map_last_address.
+
+Theorem c14_map_entries : forall upd name ip,
+  In (name, ip) (hm_after upd) <-> last_addr name upd = Some ip.
+Proof. exact hm_after_entries. Qed.
+Print Assumptions c14_map_entries.
+
+(* ... and in the file: after ANY earlier history `pre` in which port p is not in a session (it never
+       appeared, or its last hop was its restore), a session of port p receiving the non-empty update
+       history upd (any repeats of names, same or other addresses), followed by any hops of OTHER ports,
+       has as its marked lines exactly marks p (hm_after upd): one line per distinct name, carrying the
+       address of the name's last update, sorted; the unmarked lines are those of the initial file. *)
+Theorem c14_session_last_address : forall s0 Ps p pre upd post,
+  Forall (hop_ok Ps) pre -> In p Ps -> Forall entry_ok upd -> Forall (hop_ok Ps) post ->
+  map_of p (fold_left maps_step pre []) = [] ->
+  Forall (fun h => match h with HHost q _ _ => q | HEnd q => q end <> p) post ->
+  upd <> [] ->
+  let c := hosts_data (fst (run_history s0 (pre ++ host_hops p upd ++ post))) in
+  own_lines p c = marks p (hm_after upd) /\
+  rstrip_lines (base_of Ps (file_lines c)) = rstrip_lines (base_of Ps (file_lines (hosts_data s0))).
+Proof. exact session_last_address. Qed.
+Print Assumptions c14_session_last_address.
+
+(* non-vacuity: alpha moves from 10.0.0.1 to 10.0.0.3 while beta is discovered in between *)
+Example c14_moved_host_example :
+  let upd := [(bytes_of_string "alpha"%string, bytes_of_string "10.0.0.1"%string);
+              (bytes_of_string "beta"%string, bytes_of_string "10.0.0.2"%string);
+              (bytes_of_string "alpha"%string, bytes_of_string "10.0.0.3"%string)] in
+  hm_after upd = [(bytes_of_string "alpha"%string, bytes_of_string "10.0.0.3"%string);
+                  (bytes_of_string "beta"%string, bytes_of_string "10.0.0.2"%string)] /\
+  hosts_data (fst (run_history f8_s0 (host_hops 12300 upd))) = bytes_of_string "127.0.0.1 localhost
+10.0.0.3 alpha                 # sshuttle-firewall-12300 AUTOCREATED
+10.0.0.2 beta                  # sshuttle-firewall-12300 AUTOCREATED
+"%string.
+Proof. vm_compute. split; reflexivity. Qed.
+
 (* the hypothesis on names is needed: *)
 Theorem c14_hostile_name_refuted : exists e, has_marker 12300 (marked_line 12301 e) = true.
 Proof. exact hostile_name_confuses. Qed.
@@ -182,6 +228,60 @@ Proof.
   exact (reach_base pa ma pb mb (hosts_data s0) Ps (hosts_data s) Hma Hmb Ha Hb H).
 Qed.
 Print Assumptions c14_interleaved_partial_base.
+
+(* (6) Hosts files of ARBITRARY bytes.  The read is a text-mode read: the whole file is decoded (UTF-8,
+       utf8_ok = what CPython's strict decoder accepts) before anything else.  For EVERY file system state,
+       map and port, one call (rewrite_dec) either
+       - finds the file undecodable and raises at the read: the file system is untouched - no backup, no
+         temporary, the hosts file byte-identical (the helper, and with it the session, ends: firewall.main
+         does not catch the error; its clean-up calls restore_etc_hosts, which raises again and IS caught,
+         restore_dec) - or
+       - completes and installs exactly (old lines minus own marked lines) + own marked lines, as in (1).
+       So a line that does not carry this port's marker is never altered, whatever bytes it holds. *)
+Theorem c14_rewrite_any_bytes : forall port hm s,
+  let '(i, s', _) := rewrite_dec port hm s in
+  (utf8_ok (hosts_data s) = false /\ i_pc i = AtCrash /\ s' = s) \/
+  (utf8_ok (hosts_data s) = true /\ i_pc i = AtDone /\ fs_get (PTmp port) s' = None /\
+   exists f, fs_get PHosts s' = Some f /\
+     f_data f = unlines (filter (fun l => negb (has_marker port l)) (norm_lines (univ_nl (hosts_data s)))
+                         ++ List.map (marked_line port) (sort_entries hm)) /\
+     (f_uid f, f_gid f, f_mode f) = meta_of (fs_get PHosts s)).
+Proof. exact rewrite_dec_spec. Qed.
+Print Assumptions c14_rewrite_any_bytes.
+
+Theorem c14_restore_any_bytes : forall port hm s,
+  let '(s', _, raised) := restore_dec port hm s in
+  (s' = s /\ (raised = true <-> hm <> [] /\ utf8_ok (hosts_data s) = false)) \/
+  (raised = false /\ hm <> [] /\ utf8_ok (hosts_data s) = true /\
+   hosts_data s' = unlines (filter (fun l => negb (has_marker port l)) (norm_lines (univ_nl (hosts_data s))))).
+Proof. exact restore_dec_spec. Qed.
+Print Assumptions c14_restore_any_bytes.
+
+Theorem c14_undecodable_untouched : forall port hm s, utf8_ok (hosts_data s) = false ->
+  let '(i, s', tr) := rewrite_dec port hm s in
+  i_pc i = AtCrash /\ s' = s /\ tr = [OpRead true].
+Proof. exact rewrite_dec_undecodable. Qed.
+Print Assumptions c14_undecodable_untouched.
+
+Theorem c14_decodable_is_rewrite : forall port hm s, utf8_ok (hosts_data s) = true ->
+  rewrite_dec port hm s = rewrite_fs port hm s.
+Proof. exact rewrite_dec_decodable. Qed.
+Print Assumptions c14_decodable_is_rewrite.
+
+Theorem c14_ascii_decodes : forall l, Forall (fun a => N_of_ascii a <= 127) l -> utf8_ok l = true.
+Proof. exact utf8_ok_ascii. Qed.
+Print Assumptions c14_ascii_decodes.
+
+(* non-vacuity of both branches: a Latin-1 e-acute (E9) in a comment, NUL and well-formed multi-byte text *)
+Example c14_decoding_examples :
+  utf8_ok (bytes_of_string "# caf"%string ++ [ascii_of_N 233] ++ bytes_of_string " printer"%string) = false /\
+  utf8_ok [ascii_of_N 0; ascii_of_N 195; ascii_of_N 169; ascii_of_N 226; ascii_of_N 130; ascii_of_N 172;
+           ascii_of_N 240; ascii_of_N 159; ascii_of_N 152; ascii_of_N 128] = true /\
+  utf8_ok [ascii_of_N 237; ascii_of_N 160; ascii_of_N 128] = false /\        (* a surrogate *)
+  utf8_ok [ascii_of_N 192; ascii_of_N 128] = false /\                        (* overlong NUL *)
+  utf8_ok [ascii_of_N 244; ascii_of_N 144; ascii_of_N 128; ascii_of_N 128] = false /\   (* above U+10FFFF *)
+  utf8_ok [ascii_of_N 226; ascii_of_N 130] = false.                          (* cut short *)
+Proof. vm_compute. repeat split. Qed.
 
 (* non-vacuity of the history theorem: two instances, three hops, hypotheses satisfied *)
 Example c14_history_example :
